@@ -43,7 +43,10 @@ fn gen_case(cs: u64, tier: Tier) -> Case {
     let file = if r.chance(1, 2) {
         FileSrc::Synth(gen_spec(&mut r, &GenOpts { max_updates: 0, allow_objstm: false, allow_xref_stream: false, allow_free: false }))
     } else {
-        FileSrc::Lib { program: gen_program(&mut r, &GenProgOpts { max_pages: 3, tricky_text: false, images: true }), compress: r.chance(1, 2) }
+        FileSrc::Lib { program: {
+            let big = r.chance(1, 5);
+            gen_program(&mut r, &GenProgOpts { max_pages: 3, tricky_text: false, images: true, big_images: big })
+        }, compress: r.chance(1, 2) }
     };
     let source = if r.chance(1, 3) { gen_source_plan(&mut r, 1, 60, 4096) } else { SourcePlan::default() };
     Case {
@@ -156,6 +159,14 @@ fn exec_inner(c: &Case, out: &mut Outcome) {
     };
     let loc = locate(&img).unwrap();
     out.bump("file_bytes", img.len() as u64);
+    out.bump("probe.file_larger_than_scan_chunk_64k", (img.len() > 65536) as u64);
+    out.bump("probe.file_larger_than_bufreader_8k", (img.len() > 8192) as u64);
+    if let FileSrc::Synth(sp) = &c.file {
+        if let Some((_, b, _)) = sp.straddle {
+            out.bump("probe.header_straddles_64k_chunk_boundary", (b % 65536 == 0 && img.len() > b) as u64);
+            out.bump("probe.header_straddles_8k_buffer_boundary", (b % 65536 != 0 && img.len() > b) as u64);
+        }
+    }
     let intact = match view(Arc::new(img.clone()), &c.preset, &SourcePlan::default(), &objs, out) {
         Ok(v) => v,
         Err(e) => {
@@ -350,7 +361,10 @@ impl Property for C19 {
         }
         match &c.file {
             FileSrc::Synth(s) => {
-                for oi in (3..s.revisions[0].ops.len()).rev() {
+                for oi in (0..s.revisions[0].ops.len()).rev() {
+                    if matches!(s.revisions[0].ops[oi], ObjOp::Define { kind: Kind::Catalog | Kind::Pages | Kind::Page, .. }) {
+                        continue;
+                    }
                     let mut n = c.clone();
                     let mut s2 = s.clone();
                     s2.revisions[0].ops.remove(oi);
